@@ -121,6 +121,12 @@ def emit_group(g, tag, orders, backend):
         out.append("            println!(\"L %s same {} {} {} {:?}\", amt(s.amount()), amt(d.amount()), amt(r), s.unit());" % ttag)
         if t["kind"] != "single":
             out.append("            println!(\"L %s cmp_same {} {} {:?}\", x == x2, x < x2, PartialOrd::partial_cmp(&x, &x2));" % ttag)
+        if t["kind"] == "noref":
+            out.append("            let z: %s = a * %s;" % (q, u1))
+            out.append("            let pa = std::panic::catch_unwind(|| (x + z).amount()).is_err();")
+            out.append("            let ps = std::panic::catch_unwind(|| (x - z).amount()).is_err();")
+            out.append("            let pd = std::panic::catch_unwind(|| x / z).is_err();")
+            out.append("            println!(\"M %s mixed {} {} {:?} {} {} {}\", x == z, x < z, PartialOrd::partial_cmp(&x, &z), pa, ps, pd);" % ttag)
         if t["kind"] == "ref":
             m = {defgen.const_name(r["id"]): r for r in units}
             s0 = Fraction(1) if units[0]["ref"] else defgen.literal_value(units[0]["scale"])
@@ -251,6 +257,10 @@ def check_type(t, order, lines, backend, ttag):
             expect(got == [six + two5, six - two5, own_div(six, two5, backend)] and p[6] == v0, "%s: same-unit + - / give %s %s" % (ttag, got, p[6]))
         if p[0] == "L" and p[2] == "cmp_same":
             expect(p[3:] == ["false", "false", "Some(Greater)"], "%s: same-unit comparison gives %s" % (ttag, p[3:]))
+        if p[0] == "M":
+            # same amount, different units (units[0] vs units[-1], distinct for >= 2 units)
+            expect(p[3:] == ["false", "false", "None", "true", "true", "true"],
+                   "%s: values in different units of a type without reference unit: ==, <, partial_cmp, panics(+,-,/) = %s" % (ttag, p[3:]))
         if p[0] == "X":
             s0 = Fraction(1) if units[0]["ref"] else defgen.literal_value(units[0]["scale"])
             s1 = Fraction(1) if units[-1]["ref"] else defgen.literal_value(units[-1]["scale"])
@@ -320,7 +330,7 @@ def run_batch(name, groups, backend):
     amt_fn = ('pub fn amt(a: AmountT) -> String { format!("{}:{}", a.coefficient(), a.n_frac_digits()) }' if backend == "decimal"
               else 'pub fn amt(a: AmountT) -> String { format!("{:016x}", a.to_bits()) }')
     src = HELPERS.replace("//AMT//", amt_fn) + "\n" + "\n\n".join(emit_group(g, tag, orders, backend) for (g, tag, orders) in groups)
-    src += "\n\nfn main() {\n" + "\n".join("    %s::dump();" % tag for (_, tag, _) in groups) + "\n}\n"
+    src += "\n\nfn main() {\n    std::panic::set_hook(Box::new(|_| {}));\n" + "\n".join("    %s::dump();" % tag for (_, tag, _) in groups) + "\n}\n"
     d = write_crate(name, {"src/main.rs": src}, feats)
     rc, msgs, stderr = cargo_json(d, ["build"])
     if build_failed_in_dependency(msgs, stderr, name):
